@@ -11,17 +11,12 @@ import argparse, json, os, shutil, subprocess, sys, tempfile, time
 ROOT = os.path.dirname(os.path.abspath(__file__))
 
 
-def main():
-    ap = argparse.ArgumentParser()
-    ap.add_argument("prop")
-    ap.add_argument("--runs", type=int, default=None)
-    ap.add_argument("--only")
-    ap.add_argument("--tier", default="quick")
-    a = ap.parse_args()
-    muts = json.load(open(os.path.join(ROOT, "mutants", a.prop + ".json")))
-    rows = []
+def run_suite(prop, runs=None, only=None, tier="quick", verbose=True):
+    """Returns {mutant name: {"expected": "violation"|"quiet", "exit": rc, "as_expected": bool, "first": str}}."""
+    muts = json.load(open(os.path.join(ROOT, "mutants", prop + ".json")))
+    out = {}
     for m in muts:
-        if a.only and m["name"] != a.only:
+        if only and m["name"] != only:
             continue
         scratch = tempfile.mkdtemp(prefix="nflows_mut_")
         try:
@@ -32,26 +27,39 @@ def main():
                 if s.count(e["find"]) != 1:
                     raise SystemExit("mutant %s: pattern occurs %d times in %s" % (m["name"], s.count(e["find"]), e["file"]))
                 open(p, "w").write(s.replace(e["find"], e["replace"]))
-            env = dict(os.environ, VERIF_REPO=scratch)
-            cmd = ["/venv/bin/python", os.path.join(ROOT, "check"), a.prop, "--tier", a.tier, "--no-evidence"]
-            if a.runs:
-                cmd += ["--runs", str(a.runs)]
+            env = dict(os.environ, VERIF_REPO=scratch, VERIF_TIER=tier)
+            cmd = ["/venv/bin/python", os.path.join(ROOT, "check"), prop, "--tier", tier, "--no-evidence", "--no-mutants"]
+            if runs:
+                cmd += ["--runs", str(runs)]
             t0 = time.time()
             r = subprocess.run(cmd, env=env, cwd=ROOT, capture_output=True, text=True)
             dt = time.time() - t0
             viol = [l for l in r.stdout.splitlines() if l.startswith("  violation kind=")]
             expect = 0 if m.get("equivalent") else 1
             ok = (r.returncode == expect)
-            rows.append((m["name"], "equivalent" if m.get("equivalent") else "breaks", r.returncode, ok, dt, viol[:2]))
-            print("%-44s %-10s exit=%d %s %5.1fs %s" % (m["name"], rows[-1][1], r.returncode, "OK" if ok else "** MISSED/WRONG **", dt,
-                                                     (viol[0].strip()[:150] if viol else "")))
-            if r.returncode == 2:
-                print(r.stdout[-1500:])
-            sys.stdout.flush()
+            out[m["name"]] = {"expected": "quiet" if m.get("equivalent") else "violation", "exit": r.returncode,
+                              "as_expected": ok, "first": (viol[0].strip()[:200] if viol else ""), "wall_s": round(dt, 1)}
+            if verbose:
+                print("%-52s %-10s exit=%d %s %5.1fs %s" % (m["name"], "equivalent" if m.get("equivalent") else "breaks", r.returncode,
+                                                         "OK" if ok else "** MISSED/WRONG **", dt, (viol[0].strip()[:150] if viol else "")))
+                if r.returncode == 2:
+                    print(r.stdout[-1500:])
+                sys.stdout.flush()
         finally:
             shutil.rmtree(scratch, ignore_errors=True)
-    bad = [r for r in rows if not r[3]]
-    print("%d mutants, %d as expected, %d not" % (len(rows), len(rows) - len(bad), len(bad)))
+    return out
+
+
+def main():
+    ap = argparse.ArgumentParser()
+    ap.add_argument("prop")
+    ap.add_argument("--runs", type=int, default=None)
+    ap.add_argument("--only")
+    ap.add_argument("--tier", default="quick")
+    a = ap.parse_args()
+    res = run_suite(a.prop, a.runs, a.only, a.tier)
+    bad = [k for k, v in res.items() if not v["as_expected"]]
+    print("%d mutants, %d as expected, %d not %s" % (len(res), len(res) - len(bad), len(bad), bad))
     return 1 if bad else 0
 
 
